@@ -38,6 +38,7 @@ const (
 	vc05Parked
 	vc05Blocked
 	vc05Finished
+	vc05Spare // slot for a goroutine that a worker may spawn (adopted when it reaches the gate)
 )
 
 type vc05Event struct {
@@ -56,6 +57,8 @@ type vc05Thread struct {
 	resume  chan struct{}
 	outcome string
 	fail    string // injected store fault: "get" | "set" | "del" — that underlying call of this thread returns an error
+	ext     bool   // park this thread at handler-level points too (calls of collaborators between store operations)
+	bg      bool   // a goroutine spawned by a worker, adopted at the gate: each of its store calls is a step of its own
 }
 
 // VerifC05Exec runs n thread functions under a schedule: exactly one worker goroutine runs at a time.
@@ -69,6 +72,9 @@ type VerifC05Exec struct {
 	Trace   []string // one entry per step
 	Dumps   int      // number of goroutine dumps needed (blocked-thread detection)
 	Faults  []string // per thread, see vc05Thread.fail
+	Ext     []bool   // per thread, see vc05Thread.ext
+	spare   int32
+	lastNum int
 }
 
 func VerifC05NewExec() *VerifC05Exec {
@@ -82,8 +88,15 @@ func (x *VerifC05Exec) SetThreads(fns []func() string) {
 		if i < len(x.Faults) {
 			t.fail = x.Faults[i]
 		}
+		if i < len(x.Ext) {
+			t.ext = x.Ext[i]
+		}
 		x.threads = append(x.threads, t)
 	}
+	for i := 0; i < 3; i++ {
+		x.threads = append(x.threads, &vc05Thread{state: vc05Spare, resume: make(chan struct{}), bg: true})
+	}
+	x.spare = int32(len(fns))
 }
 
 func vc05Goid() int64 {
@@ -109,16 +122,82 @@ func (x *VerifC05Exec) current() *vc05Thread {
 	return x.threads[v.(int)]
 }
 
+// vc05ParentGoid: the goroutine that created the current one ("created by … in goroutine N"), -1 if unknown
+func vc05ParentGoid() int64 {
+	buf := make([]byte, 1<<16)
+	n := runtime.Stack(buf, false)
+	i := bytes.LastIndex(buf[:n], []byte(" in goroutine "))
+	if i < 0 {
+		return -1
+	}
+	rest := buf[i+len(" in goroutine ") : n]
+	j := 0
+	for j < len(rest) && rest[j] >= '0' && rest[j] <= '9' {
+		j++
+	}
+	id, err := strconv.ParseInt(string(rest[:j]), 10, 64)
+	if err != nil {
+		return -1
+	}
+	return id
+}
+
+// adopt: a goroutine that is not a worker but was spawned by one (or by an adopted one) becomes a thread of its own
+func (x *VerifC05Exec) adopt() *vc05Thread {
+	if x == nil || len(x.threads) == 0 {
+		return nil
+	}
+	if _, ok := x.byGoid.Load(vc05ParentGoid()); !ok {
+		return nil
+	}
+	slot := int(atomic.AddInt32(&x.spare, 1)) - 1
+	if slot >= len(x.threads) {
+		return nil
+	}
+	t := x.threads[slot]
+	gid := vc05Goid()
+	atomic.StoreInt64(&t.goid, gid)
+	x.byGoid.Store(gid, slot)
+	return t
+}
+
 // park is called by the gate on a worker goroutine before an underlying store call
 func (x *VerifC05Exec) park(op, key string) *vc05Thread {
 	t := x.current()
 	if t == nil {
+		if t = x.adopt(); t == nil {
+			return nil
+		}
+	}
+	if op == "ext" && !t.ext {
 		return nil
 	}
 	tid, _ := x.byGoid.Load(atomic.LoadInt64(&t.goid))
 	x.events <- vc05Event{tid: tid.(int), parked: true, op: op, key: key}
 	<-t.resume
 	return t
+}
+
+// opDone: result of the call a thread was parked at; a background goroutine's step ends here
+func (x *VerifC05Exec) opDone(t *vc05Thread, res string) {
+	if t == nil {
+		return
+	}
+	t.lastRes = res
+	if t.bg {
+		tid, _ := x.byGoid.Load(atomic.LoadInt64(&t.goid))
+		x.events <- vc05Event{tid: tid.(int), outcome: "bg"}
+	}
+}
+
+// VerifC05ExtPark parks the calling worker (if it takes part in handler-level scheduling) at a collaborator call
+func VerifC05ExtPark(x *VerifC05Exec) {
+	if x == nil {
+		return
+	}
+	if t := x.park("ext", "handler"); t != nil {
+		t.lastRes = "ok"
+	}
 }
 
 func (x *VerifC05Exec) runThread(i int) {
@@ -158,7 +237,21 @@ func vc05GoroutineWaitsOnMutex(dump []byte, goid int64) bool {
 		return false
 	}
 	st := string(rest[:j])
-	return strings.HasPrefix(st, "sync.Mutex.Lock") || strings.HasPrefix(st, "sync.RWMutex.Lock") || strings.HasPrefix(st, "sync.RWMutex.RLock")
+	// waiting for a lock, or for another request to finish (Cond / WaitGroup: e.g. request coalescing).  The runtime itself uses
+	// semaphores too (a goroutine that wants to start a GC cycle while the world is stopped for our dump): only a semacquire that
+	// comes from sync.WaitGroup counts.
+	if strings.HasPrefix(st, "sync.Mutex.Lock") || strings.HasPrefix(st, "sync.RWMutex.Lock") || strings.HasPrefix(st, "sync.RWMutex.RLock") ||
+		strings.HasPrefix(st, "sync.Cond.Wait") {
+		return true
+	}
+	if strings.HasPrefix(st, "semacquire") {
+		block := rest
+		if k := bytes.Index(block, []byte("\n\n")); k >= 0 {
+			block = block[:k]
+		}
+		return bytes.Contains(block, []byte("sync.(*WaitGroup).Wait"))
+	}
+	return false
 }
 
 // settle waits until every started, unfinished thread is parked at a gate or blocked on a mutex
@@ -184,6 +277,9 @@ func (x *VerifC05Exec) settle() {
 			}
 		}
 		if !pending {
+			if x.stragglers(&buf) {
+				continue
+			}
 			return
 		}
 		spins++
@@ -218,12 +314,65 @@ func (x *VerifC05Exec) settle() {
 			}
 		}
 		if allBlocked && len(x.events) == 0 {
+			if x.stragglers(&buf) {
+				continue
+			}
 			return
 		}
 		if time.Now().After(deadline) {
 			panic("verif C05: threads neither park, finish nor block: " + string(buf[:n]))
 		}
 	}
+}
+
+// stragglers: goroutines spawned by a worker that have not reached the gate yet (they will become threads of their own).
+// Returns true if it waited and something may have changed.
+func (x *VerifC05Exec) stragglers(buf *[]byte) bool {
+	if n := runtime.NumGoroutine(); n == x.lastNum {
+		return false
+	}
+	for try := 0; try < 200; try++ {
+		var n int
+		for {
+			n = runtime.Stack(*buf, true)
+			if n < len(*buf) {
+				break
+			}
+			*buf = make([]byte, 2*len(*buf))
+		}
+		x.Dumps++
+		waiting := false
+		for _, block := range bytes.Split((*buf)[:n], []byte("\n\n")) {
+			i := bytes.LastIndex(block, []byte(" in goroutine "))
+			if i < 0 || !bytes.HasPrefix(block, []byte("goroutine ")) {
+				continue
+			}
+			rest := block[i+len(" in goroutine "):]
+			j := 0
+			for j < len(rest) && rest[j] >= '0' && rest[j] <= '9' {
+				j++
+			}
+			parent, _ := strconv.ParseInt(string(rest[:j]), 10, 64)
+			if _, ok := x.byGoid.Load(parent); !ok {
+				continue
+			}
+			f := bytes.Fields(block[:bytes.IndexByte(block, '\n')+1])
+			if len(f) < 2 {
+				continue
+			}
+			self, _ := strconv.ParseInt(string(f[1]), 10, 64)
+			if _, ok := x.byGoid.Load(self); !ok {
+				waiting = true // spawned by one of ours and not yet at the gate (nor gone)
+			}
+		}
+		if !waiting || len(x.events) > 0 {
+			x.lastNum = runtime.NumGoroutine()
+			return len(x.events) > 0
+		}
+		time.Sleep(20 * time.Microsecond)
+	}
+	x.lastNum = runtime.NumGoroutine()
+	return false
 }
 
 func (x *VerifC05Exec) stateString(t *vc05Thread) string {
@@ -244,7 +393,7 @@ func (x *VerifC05Exec) stateString(t *vc05Thread) string {
 func (x *VerifC05Exec) Enabled() []int {
 	var r []int
 	for i, t := range x.threads {
-		if t.state == vc05NotStarted || t.state == vc05Parked {
+		if (t.state == vc05NotStarted && t.fn != nil) || t.state == vc05Parked {
 			r = append(r, i)
 		}
 	}
@@ -253,7 +402,7 @@ func (x *VerifC05Exec) Enabled() []int {
 
 func (x *VerifC05Exec) AllFinished() bool {
 	for _, t := range x.threads {
-		if t.state != vc05Finished {
+		if t.state != vc05Finished && t.state != vc05Spare {
 			return false
 		}
 	}
@@ -324,6 +473,9 @@ func (x *VerifC05Exec) Finish() bool {
 func (x *VerifC05Exec) Outcomes() []string {
 	var r []string
 	for _, t := range x.threads {
+		if t.state == vc05Spare {
+			continue
+		}
 		if t.state == vc05Finished {
 			r = append(r, t.outcome)
 		} else {
@@ -341,6 +493,7 @@ type VerifC05Gate struct {
 	Exec   *VerifC05Exec
 	Strict bool                  // emulate a back-end whose Delete reports a missing key (memcached)
 	Watch  func(key string) bool // nil: every key
+	Ext    func(key string) bool // unwatched keys whose store calls are handler-level parking points
 	Norm   func(key string) string
 	seenMu sync.Mutex
 	seen   map[string]bool // every full key any caller used (gated or not)
@@ -369,6 +522,12 @@ func (g *VerifC05Gate) gate(op string, key any) *vc05Thread {
 	g.seen[k] = true
 	g.seenMu.Unlock()
 	if g.Watch != nil && !g.Watch(k) {
+		// not a key of the scenario's secrets: a collaborator call as far as the one-time stores go (e.g. storing the access token)
+		if g.Ext != nil && g.Ext(k) {
+			if t := g.Exec.park("ext", "handler"); t != nil {
+				t.lastRes = "ok"
+			}
+		}
 		return nil
 	}
 	if g.Norm != nil {
@@ -382,16 +541,14 @@ var errVerifC05Injected = fmt.Errorf("verif: injected store failure")
 func (g *VerifC05Gate) Get(ctx context.Context, key any) (any, error) {
 	t := g.gate("get", key)
 	if t != nil && t.fail == "get" {
-		t.lastRes = "fail"
+		g.Exec.opDone(t, "fail")
 		return nil, errVerifC05Injected
 	}
 	v, err := g.Inner.Get(ctx, key)
-	if t != nil {
-		if err == nil {
-			t.lastRes = "hit"
-		} else {
-			t.lastRes = "miss"
-		}
+	if err == nil {
+		g.Exec.opDone(t, "hit")
+	} else {
+		g.Exec.opDone(t, "miss")
 	}
 	return v, err
 }
@@ -412,16 +569,14 @@ func (g *VerifC05Gate) GetWithTTL(ctx context.Context, key any) (any, time.Durat
 func (g *VerifC05Gate) Set(ctx context.Context, key any, value any, options ...store.Option) error {
 	t := g.gate("set", key)
 	if t != nil && t.fail == "set" {
-		t.lastRes = "fail"
+		g.Exec.opDone(t, "fail")
 		return errVerifC05Injected
 	}
 	err := g.Inner.Set(ctx, key, value, options...)
-	if t != nil {
-		if err == nil {
-			t.lastRes = "ok"
-		} else {
-			t.lastRes = "err"
-		}
+	if err == nil {
+		g.Exec.opDone(t, "ok")
+	} else {
+		g.Exec.opDone(t, "err")
 	}
 	return err
 }
@@ -429,7 +584,7 @@ func (g *VerifC05Gate) Set(ctx context.Context, key any, value any, options ...s
 func (g *VerifC05Gate) Delete(ctx context.Context, key any) error {
 	t := g.gate("del", key)
 	if t != nil && t.fail == "del" {
-		t.lastRes = "fail"
+		g.Exec.opDone(t, "fail")
 		return errVerifC05Injected
 	}
 	var err error
@@ -441,12 +596,10 @@ func (g *VerifC05Gate) Delete(ctx context.Context, key any) error {
 	if err == nil {
 		err = g.Inner.Delete(ctx, key)
 	}
-	if t != nil {
-		if err == nil {
-			t.lastRes = "ok"
-		} else {
-			t.lastRes = "err"
-		}
+	if err == nil {
+		g.Exec.opDone(t, "ok")
+	} else {
+		g.Exec.opDone(t, "err")
 	}
 	return err
 }
@@ -756,9 +909,14 @@ func (scn *VerifC05Scn) setup(level VerifC05Level) VerifC05Setup {
 		if err != nil {
 			panic(err)
 		}
-		x.Faults = nil
+		x.Faults, x.Ext = nil, nil
 		for _, r := range scn.Threads {
 			x.Faults = append(x.Faults, r.Fail)
+			// handler-level parking points exist where the real handlers are driven and the model knows them
+			x.Ext = append(x.Ext, scn.Level == "iam" && (r.Kind == "code" || r.Kind == "reqobj"))
+		}
+		if scn.Level == "iam" {
+			b.Gate.Ext = func(k string) bool { return strings.HasPrefix(strings.ReplaceAll(k, ".", "/"), "serveraccesstoken/") }
 		}
 		final := func() string {
 			var r []string
